@@ -60,6 +60,7 @@ type caseJSON struct {
 // ---- worker side ------------------------------------------------------------------------------
 
 type wstate struct {
+	minimal [][]Op // 1-minimal failing histories found so far in this worker
 	nm      names
 	dir     string
 	memo    map[string]bool
@@ -91,8 +92,46 @@ func (s *wstate) fails(h []Op) bool {
 	return v
 }
 
+// embeds reports whether r is obtained from h by dropping ops (then h fails because r does; r is
+// itself a canonical history inside the bound and is reported on its own).
+func embeds(h, r []Op) bool {
+	if len(r) >= len(h) {
+		return false
+	}
+	want := histString(r)
+	drop := len(h) - len(r)
+	idx := make([]int, drop)
+	var rec func(start, k int) bool
+	rec = func(start, k int) bool {
+		if k == drop {
+			cur := h
+			for j := drop - 1; j >= 0; j-- {
+				var ok bool
+				if cur, ok = dropOp(cur, idx[j]); !ok {
+					return false
+				}
+			}
+			n, ok := normalise(cur, maxTemps)
+			return ok && histString(n) == want
+		}
+		for i := start; i < len(h); i++ {
+			idx[k] = i
+			if rec(i+1, k+1) {
+				return true
+			}
+		}
+		return false
+	}
+	return rec(0, 0)
+}
+
 // reduce drops ops while some violation persists (1-minimal failing history).
 func (s *wstate) reduce(h []Op) []Op {
+	for _, r := range s.minimal {
+		if embeds(h, r) {
+			return r
+		}
+	}
 	cur := append([]Op(nil), h...)
 	for changed := true; changed; {
 		changed = false
@@ -148,6 +187,7 @@ func (s *wstate) one(h []Op) string {
 		key := findingKey(red, rr.Fails)
 		if !s.emitted[key] {
 			s.emitted[key] = true
+			s.minimal = append(s.minimal, red)
 			s.w.Emit(rec{Kind: "fail", Key: key, Clause: rr.Fails[0].Label, Size: len(red), Case: caseJSON{Ops: red, Text: histString(red), Names: s.nm, Fails: capFails(rr.Fails)}, Detail: detail(rr.Fails)})
 		}
 	}
